@@ -275,8 +275,12 @@ func (s *Streamer) parseEvents(ctx context.Context, events <-chan replication.Bi
 			_log.Debugf("parseEvents pos: %+v binlog event is a table map event, tableID: %v table map: %+v",
 				pos, tableID, *tm)
 
-			if _, ok = tablesMaps[tableID]; ok {
-				tablesMaps[tableID].tableMap = tm
+			// A cached id keeps its table info only while it still stands for the same
+			// table. Table ids restart with the master, so a later binlog file may
+			// announce another table under an id seen before: look that one up afresh.
+			if cached, ok := tablesMaps[tableID]; ok &&
+				cached.tableMap.Database == tm.Database && cached.tableMap.Name == tm.Name {
+				cached.tableMap = tm
 				continue
 			}
 
